@@ -107,6 +107,10 @@ class SArr(Sym):
                 t = self.norm_index(k, self.n0, I)
                 self.index_ok(I, t, self.n0, node)
                 return self.wrap_elem(a(t, z3.IntVal(0)))
+            if len(idx) == 2 and I.ctx.spec_mode and not any(isinstance(q, (SSlice, slice)) or q is None for q in idx):
+                # a 2-index read of a vector inside a specification (an operand that is only meaningful under a
+                # guard that is false here): some value, no obligation
+                return self.wrap_elem(a(self.norm_index(idx[0], self.n0, I), self.norm_index(idx[1], self.n1, I)))
             if len(idx) == 2 and idx[1] is None and isinstance(idx[0], (SSlice, slice)):   # x[:, np.newaxis]
                 lo, ln = self.slice_bounds(idx[0], self.n0)
                 return SArr(2, ln, z3.IntVal(1), lambda i, j: a(i + lo, 0), self.dtype, False)
